@@ -672,6 +672,115 @@ func c16CLI(run *core.Run) {
 	}
 }
 
+// ---------------------------------------------------------------- XML KeepWhitespace, JS Precision
+
+// c16XML: with KeepWhitespace the C06 relation in its strict form (no white space run disappears, runs only
+// collapse) must hold on generated documents and on the neighbour matrix around a white space run.
+func c16XML(run *core.Run) {
+	var docs [][]byte
+	kinds := []string{"t", " ", "<![CDATA[c]]>", "<!--m-->", "<?pi a=\"1\"?>", "<b>", "</b>", "<e/>", "<e a=\"1\"/>"}
+	for _, x := range kinds {
+		for _, y := range kinds {
+			for _, z := range kinds {
+				for _, ws := range []string{" ", "\n  "} {
+					d := "<r>" + x + ws + y + ws + z + "</r>"
+					if strings.Count(d, "<b>") == strings.Count(d, "</b>") && !strings.Contains(d, "</b>"+ws+"<b>x") {
+						docs = append(docs, []byte(balance(d)))
+					}
+				}
+			}
+		}
+	}
+	n := run.N(400, 6000)
+	for i := 0; i < n; i++ {
+		docs = append(docs, []byte(genXMLDoc(run.CaseRand("c16xml", i, n/2), map[string]int{})))
+	}
+	core.ParallelFor(len(docs), 0, func(i int) {
+		in := docs[i]
+		run.Eval()
+		res, out := c06Judge(in, true)
+		switch {
+		case res == "":
+			run.Count("xml_keepwhitespace_cases")
+			run.NonTrivial([]byte("xml keepwhitespace"), in)
+		case res == "INCONCLUSIVE":
+			run.Inconclusive()
+		case strings.HasPrefix(res, "GUARD:"):
+			run.Count("guarded_out:" + res[6:])
+		default:
+			cfg := "xml keepwhitespace=true"
+			run.Violation(core.Key(cfg, in), fmt.Sprintf("%s: %s | in=%q out=%q", cfg, res, core.Trunc(string(in), 300), core.Trunc(string(out), 300)), map[string]string{"config": cfg, "input": string(in), "output": string(out)})
+		}
+	})
+}
+
+// c16JSPrecision: Precision rounds number literals and nothing else.  The programs contain no number literal with
+// more than one digit, only numeric-looking strings as property keys and values, so every Precision must leave
+// their behaviour unchanged (C01's execution monitor).
+func c16JSPrecision(run *core.Run) {
+	n := run.N(150, 2500)
+	core.ParallelFor(n, 8, func(i int) {
+		r := run.CaseRand("c16jsprec", i, n/2)
+		numStr := func() string {
+			switch r.Intn(6) {
+			case 0:
+				return fmt.Sprint(10000 + r.Intn(90000))
+			case 1:
+				return fmt.Sprintf("%d.%d", 1+r.Intn(99), 1000+r.Intn(9000))
+			case 2:
+				return fmt.Sprint(100000000 + r.Intn(900000000))
+			case 3:
+				return fmt.Sprintf("0.%d", 10000+r.Intn(90000))
+			case 4:
+				return fmt.Sprintf("%de%d", 1000+r.Intn(9000), 1+r.Intn(3))
+			}
+			return fmt.Sprint(100 + r.Intn(900))
+		}
+		k := r.Range(2, 5)
+		var keys []string
+		for j := 0; j < k; j++ {
+			keys = append(keys, numStr())
+		}
+		// canonical: the string is what the number prints as.  Only those may stand as literal keys of an object or
+		// class (known finding js-string-key-noncanonical-number: the parser of the dependency turns every
+		// decimal-looking string key into a number token); all of them may be used as computed string indices
+		canonical := func(k string) bool {
+			return !strings.ContainsAny(k, "e") && !(strings.Contains(k, ".") && (strings.HasSuffix(k, "0") || strings.HasPrefix(k, "0")))
+		}
+		var sb strings.Builder
+		sb.WriteString("var o={};")
+		for j, key := range keys {
+			fmt.Fprintf(&sb, "o[%q]=%q;", key, "v"+fmt.Sprint(j))
+		}
+		for j, key := range keys {
+			switch c := r.Intn(4); {
+			case c == 0:
+				fmt.Fprintf(&sb, "h(%d,o[%q]);", j+1, key)
+			case c == 1:
+				fmt.Fprintf(&sb, "h(%d,o[%q],%q in o);", j+1, key, key)
+			case c == 2 || !canonical(key):
+				fmt.Fprintf(&sb, "o[%q]+=%q;h(%d,o[%q]);", key, key, j+1, key)
+			default:
+				fmt.Fprintf(&sb, "h(%d,{%q:%d}[%q],class{static %q=%d}[%q]);", j+1, key, j, key, key, j, key)
+			}
+		}
+		sb.WriteString("h(9,Object.keys(o).join());")
+		src := sb.String()
+		c := jsConfig{Precision: 1 + r.Intn(6), KeepVarNames: r.Bool()}
+		run.Eval()
+		v := jsJudge(src, c)
+		switch {
+		case v.Verdict == "":
+			run.Count("js_precision_key_programs")
+			run.NonTrivial([]byte(c.String()), []byte(src))
+		case v.Verdict == "REJECTED" || strings.HasPrefix(v.Verdict, "INCONCLUSIVE"):
+			run.Inconclusive()
+		default:
+			run.Violation(core.Key(c.String(), []byte(src)), fmt.Sprintf("%s: Precision changed a program without number literals: %s | in=%s | out=%s", c, v.Verdict, core.Trunc(src, 300), core.Trunc(v.Out, 300)), map[string]string{"config": c.String(), "input": src, "output": v.Out})
+		}
+	})
+}
+
 func C16(run *core.Run) {
 	run.ReplayWitnesses(func(f core.Finding, w core.Witness) (bool, string) {
 		// recorded C16 witnesses are JS programs: replay the edition probe at every target version
@@ -694,8 +803,10 @@ func C16(run *core.Run) {
 	c16JSVersion(run)
 	c16HTML(run)
 	c16Numbers(run)
+	c16XML(run)
+	c16JSPrecision(run)
 	c16CLI(run)
-	run.Finish("js: smallest acorn edition accepting the output <= max(Version, smallest edition accepting the input), for Version in {5,2015..2022} x KeepVarNames, plus C02's scope monitor under KeepVarNames; html: Keep* post-conditions on raw tags (end tags, document tags, quotes) and the C03 relation, on the document and inside kept conditional comments, over all 128 option sets; numbers: every output lexeme within half a unit of the Precision-th significant digit of its input lexeme (json/css/svg), unchanged under KeepNumbers, no exponents under KeepCSS2, comments per svg KeepComments; CLI: command with one flag == library with the option, on probes that distinguish the option",
+	run.Finish("js: smallest acorn edition accepting the output <= max(Version, smallest edition accepting the input), for Version in {5,2015..2022} x KeepVarNames, plus C02's scope monitor under KeepVarNames; html: Keep* post-conditions on raw tags (end tags, document tags, quotes) and the C03 relation, on the document and inside kept conditional comments, over all 128 option sets; numbers: every output lexeme within half a unit of the Precision-th significant digit of its input lexeme (json/css/svg), unchanged under KeepNumbers, no exponents under KeepCSS2, comments per svg KeepComments; xml: the C06 relation in its KeepWhitespace form (no white space run disappears) on a neighbour matrix and generated documents; js Precision: programs whose only numbers are strings (property keys, values) behave the same at every Precision; CLI: command with one flag == library with the option, on probes that distinguish the option",
 		[]string{"acorn's edition switch defines which syntax belongs to which ECMAScript version", "x/net/html and my raw tag scanner parse both texts; conditional comments are recognised textually (generator controlled form)",
 			"the semantic guarantees under option combinations are decided by C01-C07, whose workloads randomise the same options"}, 1000, false)
 }
